@@ -18,6 +18,7 @@ import (
 	"github.com/mithrandie/csvq/lib/parser"
 	"github.com/mithrandie/csvq/lib/query"
 	"github.com/mithrandie/csvq/lib/value"
+	"github.com/mithrandie/ternary"
 )
 
 var c05MultiRe = regexp.MustCompile(`(?m)^(no|\d+) records? (deleted|updated) on "([^"]*)"`)
@@ -241,8 +242,13 @@ func sameTexts(a, b [][]value.Primary) bool {
 		if value.IsNull(p) {
 			return ""
 		}
-		switch p.(type) {
-		case *value.Ternary, *value.Boolean: // written to the file in lower case
+		switch t := p.(type) {
+		case *value.Ternary: // written to the file as true / false, UNKNOWN as an empty field (which reads back as NULL)
+			if t.Ternary() == ternary.UNKNOWN {
+				return ""
+			}
+			return strings.ToLower(p.String())
+		case *value.Boolean: // written to the file in lower case
 			return strings.ToLower(p.String())
 		}
 		s := value.ToString(p)
